@@ -45,13 +45,13 @@ def check(ctx):
     ddf, ddp, idx, _ = effects.defaultdict_typing(program)
     analyzer = effects.Analyzer(program, dd_fields=ddf, dd_params=ddp,
                                 index_types=idx)
-    browser.check_ctor_prop(ctx)
-    browser.check_guarded_read(ctx)
-    browser.check_copy_in(ctx, analyzer)
-    browser.check_select_shape(ctx)
-    browser.check_select_one(ctx)
-    browser.check_merge_shape(ctx)
-    browser.check_brw_pure(ctx, analyzer)
+    ctx.run(browser.check_ctor_prop)
+    ctx.run(browser.check_guarded_read)
+    ctx.run(browser.check_copy_in, analyzer)
+    ctx.run(browser.check_select_shape)
+    ctx.run(browser.check_select_one)
+    ctx.run(browser.check_merge_shape)
+    ctx.run(browser.check_brw_pure, analyzer)
     ctx.count('functions_analysed', analyzer.functions_analysed)
     ctx.count('call_sites_resolved', analyzer.calls_resolved)
 
